@@ -96,6 +96,15 @@ for i in range(S.budget):
             ok = all(r > 0 for r in ratio) and all(ratio[k] <= ratio[k + 1] * (1 + 1e-12) for k in range(15)) and \
                 all(ratio[k + 1] / grid[k + 1] ** 4 <= ratio[k] / grid[k] ** 4 * (1 + 1e-12) for k in range(15))
             S.count(None, f'shape-premise:{mode}:' + ('holds' if ok else 'fails'))
+            # the strict premise of C11_limited_search_terminates with delta = 1/2, on the same grid, for driver-limited cases
+            if can is False:
+                import math
+                dl = 0.5
+                lq = [-math.log(r) for r in ratio] if all(r > 0 for r in ratio) else None
+                lx = [math.log(x) for x in grid]
+                strict = lq is not None and all(-(4 - dl) * (lx[k + 1] - lx[k]) - 1e-12 <= lq[k + 1] - lq[k] <= -dl * (lx[k + 1] - lx[k]) + 1e-12
+                                               for k in range(15))
+                S.count(None, f'strict-premise:{mode}:' + ('holds' if strict else 'fails'))
             if ok and n > n0 * (1 + 1e-12):
                 S.violation('C11:theorem-contradicted', f'shape premise holds on the grid but the returned speed {n} exceeds {n0}', input=where)
         except IndexError:
